@@ -1115,10 +1115,13 @@ func (p *partition) getReplicationRequestInbox() string {
 }
 
 // getLeaderOffsetRequestInbox returns the NATS subject to send leader epoch
-// offset requests to.
+// offset requests to. The subject names the leader the request is meant for:
+// the response carries no leader epoch the follower could check, so a server
+// that still believes it is the leader must not be able to answer a follower
+// that already follows a newer one.
 func (p *partition) getLeaderOffsetRequestInbox() string {
-	return fmt.Sprintf("%s.%s.%d.offset",
-		p.srv.config.Clustering.Namespace, p.Stream, p.Id)
+	return fmt.Sprintf("%s.%s.%d.offset.%s",
+		p.srv.config.Clustering.Namespace, p.Stream, p.Id, p.Leader)
 }
 
 // autoPauseLoop is a long-running loop the leader runs to check if the
